@@ -79,10 +79,13 @@ def parse_line(c, line):
         if st.startswith("panic:"):
             out.append(("panic", st[6:]))
         elif st.startswith("D "):
-            d, t = st[2:].split(" T ")
+            body, _, e = st[2:].partition(" E ")
+            d, t = body.split(" T ")
             dn, tn = [int(v) for v in d.split()], [int(v) for v in t.split()]
             assert len(dn) == nver(c) and len(tn) == nver(c), (c["suite"], len(dn), nver(c))
-            out.append(("d", dn, tn))
+            en = [int(v) for v in e.split()]
+            # is_empty() of every view of delta, then of total (not part of the model's dump: checked as a law on the real answers)
+            out.append(("d", dn, tn, en[:len(en) // 2], en[len(en) // 2:]))
         elif st.startswith("p "):
             out.append(("p", [[int(ch) for ch in t] for t in st[2:].split("/")]))
         else:
@@ -249,6 +252,7 @@ LAW_TEXT = {
     "P4s": "P4: a keyed view serves a tuple outside total+delta (or under the wrong key)",
     "P4m": "P4: a view of total serves a tuple twice",
     "P5": "P5: contains_key disagrees with the version's content",
+    "EMPTY": "is_empty() of a view returned true although the view serves tuples (generated code skips a rule whose body relation reports empty)",
     "PANIC": "the provider panicked",
     "LIN": "concurrent inserts: no sequential order of the atomic steps explains the returned booleans",
 }
@@ -317,6 +321,14 @@ def check_laws(c, steps):
             e_td = [closure_mask(g, d1) for g in gd]
             e_d = [e_td[k] & ~e_t[k] for k in range(K)]
             D, T = split_version(c, st[1]), split_version(c, st[2])
+            if len(st) > 3:
+                names = ["f", "i0", "i1", "i2", "i01", "i02", "i12", "n"] if ter else ["f", "i0", "i1", "n"]
+                for ver, V, fl in (("D", D, st[3]), ("T", T, st[4])):
+                    for nm, b in zip(names, fl):
+                        if b == 2:
+                            add("PANIC", i, nm, ver, "is_empty() of view %s panicked" % nm)
+                        elif b == 1 and (any(m > 0 for m in V[nm]["all"]) or any(m > 0 for m in V[nm]["get"])):
+                            add("EMPTY", i, nm, ver, "view %s of %s: is_empty() = true, iter_all serves %s" % (nm, "delta" if ver == "D" else "total", V[nm]["all"]))
             pre = "n" if "n" in T else "c_n"
             r_t, r_d = T[pre]["get"], D[pre]["get"]
 
